@@ -90,7 +90,7 @@ template<class V, class VB> void exercise(V&& v, VB&& vb, MV const& m, MV const&
 	if(c.lead) { rr = run_alg(c.alg, v.begin(), v.end(), vb.begin(), vb.end(), c.mid, c.k); }
 	else { auto&& ea = v.elements(); auto&& eb = vb.elements(); bool done = false;
 		// iterator OBJECTS that were bound to a range of other extents first and then copy-assigned (the "declare, assign later / re-use the variable" call form): the algorithm must see the assigned range
-		if(m.size[0] >= 2 && c.g->chance(1, 3)) { auto&& w = v.sliced(0, m.size[0] - 1); auto&& ew = w.elements(); if constexpr(std::is_same_v<decltype(ew.begin()), decltype(ea.begin())>) { auto t1 = ew.begin(); auto t2 = ew.end(); t1 = ea.begin(); t2 = ea.end(); count("elements-iterators-reassigned-from-another-range"); rr = run_alg(c.alg, t1, t2, eb.begin(), eb.end(), c.mid, c.k); done = true; } }
+		if(m.size[0] >= 2 && c.g->chance(1, 3)) { L const f0 = L(v.extension().first()); auto&& w = v.sliced(f0, f0 + m.size[0] - 1); auto&& ew = w.elements(); if constexpr(std::is_same_v<decltype(ew.begin()), decltype(ea.begin())>) { auto t1 = ew.begin(); auto t2 = ew.end(); t1 = ea.begin(); t2 = ea.end(); count("elements-iterators-reassigned-from-another-range"); rr = run_alg(c.alg, t1, t2, eb.begin(), eb.end(), c.mid, c.k); done = true; } }
 		if(!done) rr = run_alg(c.alg, ea.begin(), ea.end(), eb.begin(), eb.end(), c.mid, c.k); }
 	// observe through raw storage + model
 	std::vector<Val> aa = read_seq(pa, m, c.lead), ab = read_seq(pb, m2, c.lead);
@@ -192,6 +192,9 @@ template<int D> void one(Case& cs) {
 	int const fam = int(g.below(63));
 	with_family<D>(fam, A, B, m, c, [&](auto&& va, auto&& vb, MV const& vm, MV const& vmb) {
 		bool const aliased = c.fam.rfind("alias:", 0) == 0; if(aliased) count("aliased_second_range"); if(c.fam.rfind("cross:", 0) == 0) count("cross_layout_second_range");
+		// one time in four the same ranges with first indices other than 0 in the first two dimensions (reindexed(i, j) of a D >= 2 view): positions, values and algorithms do not depend on index bases
+		if constexpr(rank_of<decltype(va)> >= 2 && rank_of<decltype(vb)> >= 2) { if(g.chance(1, 4)) { L const r0 = g.in(-2, 3), r1 = g.in(1, 3); count("re-based-ranges"); c.fam += "+reindexed";
+			exercise(va.reindexed(r0, r1), vb.reindexed(r0, r1), vm, vmb, ra, aliased ? ra : rb, pa, aliased ? pa : pb, c); return; } }
 		exercise(std::forward<decltype(va)>(va), std::forward<decltype(vb)>(vb), vm, vmb, ra, aliased ? ra : rb, pa, aliased ? pa : pb, c); });
 }
 
